@@ -280,6 +280,9 @@ func castOracles(rep *streamReport, props map[string]bool, t castTarget, v inter
 						addViolation(rep, "C11", fmt.Sprintf("%d-byte sequence accepted for %s (size %d)", len(bv), t.name, n), in())
 					} else if !errors.Is(o.err, cast.ErrUnableToCast) {
 						addViolation(rep, "C11", "length rejection does not wrap the sentinel", in())
+					} else if o.res != nil {
+						// a value next to the error is what NewValue / Row.Set keep when a cast fails: the payload would be accepted after all
+						addViolation(rep, "C11", fmt.Sprintf("the %d-byte sequence is rejected for %s (size %d) but a value %v (%T) comes with the error: a column keeps it", len(bv), t.name, n, o.res, o.res), in())
 					}
 				} else {
 					if o.err != nil {
